@@ -382,7 +382,7 @@ def validate(norm: Normaliser, rules: Rules, orig_term, nf_poly, seed=0, points=
     _leaves(orig_term, leaves, set())
     for a in norm.atoms.terms:
         _leaves(a, leaves, set())
-    if any(n in rules.unsampled for n in leaves):
+    if any(n in rules.unsampled for n in leaves) or getattr(rules, "conditional", False):
         return 0
     rng = random.Random(seed)
     done = 0
